@@ -415,6 +415,7 @@ func (cur *FieldMask) GetPath(desc *thrift_reflection.TypeDescriptor, path strin
 
 			all := cur.All()
 			next := cur.all
+			closed := false
 			// iter indexies...
 			for it.HasNext() {
 				tok := it.Next()
@@ -425,6 +426,7 @@ func (cur *FieldMask) GetPath(desc *thrift_reflection.TypeDescriptor, path strin
 				}
 
 				if typ == pathTypeIndexR {
+					closed = true
 					break
 				}
 				if all || typ == pathTypeElem {
@@ -445,6 +447,10 @@ func (cur *FieldMask) GetPath(desc *thrift_reflection.TypeDescriptor, path strin
 				}
 				// NOTICE: always use last elem's fieldmask
 				next = nextFm
+			}
+			if !closed {
+				// the index set isn't terminated by ']'
+				return nil, false
 			}
 
 			// next fieldmask
@@ -470,6 +476,7 @@ func (cur *FieldMask) GetPath(desc *thrift_reflection.TypeDescriptor, path strin
 			}
 			// spew.Dump("cur ", cur)
 			next := cur.all
+			closed := false
 			// iter indexies...
 			for it.HasNext() {
 				tok := it.Next()
@@ -480,6 +487,7 @@ func (cur *FieldMask) GetPath(desc *thrift_reflection.TypeDescriptor, path strin
 				// println("token", tok.String())
 
 				if typ == pathTypeMapR {
+					closed = true
 					break
 				}
 				if cur.All() || typ == pathTypeElem {
@@ -514,6 +522,10 @@ func (cur *FieldMask) GetPath(desc *thrift_reflection.TypeDescriptor, path strin
 				} else {
 					return nil, false
 				}
+			}
+			if !closed {
+				// the key set isn't terminated by '}'
+				return nil, false
 			}
 
 			// next fieldmask
